@@ -149,8 +149,8 @@ func c15R1(c *Ctx, rule string) {
 			return true
 		})
 	}
-	if nilRets != 2 {
-		c.Bad(rule, "Close:nil-returns", c.P.Pos(fn.Pos()), "two nil returns (already closed / complete success)", fmt.Sprintf("%d", nilRets))
+	if nilRets < 2 {
+		c.Bad(rule, "Close:nil-returns", c.P.Pos(fn.Pos()), "at least two nil returns (already closed / complete success), each checked above", fmt.Sprintf("%d", nilRets))
 	}
 }
 
@@ -201,8 +201,8 @@ func c15R2(c *Ctx, rule string) {
 				return v.Seen("flush") && v.F("flushErr") && (v.T("noSync") || (v.Seen("sync") && v.F("syncErr"))) && v.Seen("close") && v.F("closeErr") && v.F("statErr") && v.Seen("size") && v.Seen("crc")
 			})
 		}
-		if n != 1 {
-			c.Bad(rule, "finalize:return-nil", c.P.Pos(fn.Pos()), "one success return", fmt.Sprintf("%d", n))
+		if n < 1 {
+			c.Bad(rule, "finalize:return-nil", c.P.Pos(fn.Pos()), "a success return", fmt.Sprintf("%d", n))
 		}
 		engine.EachInstr(fn, func(in ssa.Instruction) {
 			if crc == nil {
@@ -272,8 +272,8 @@ func c15R2(c *Ctx, rule string) {
 				return v.Seen("create") && v.F("createErr") && v.Seen("encode") && v.F("encodeErr") && v.Seen("flush") && v.F("flushErr") && (v.T("noSync") || (v.Seen("sync") && v.F("syncErr")))
 			})
 		}
-		if n != 1 {
-			c.Bad(rule, "writeMeta:return-nil", c.P.Pos(fn.Pos()), "one success return", fmt.Sprintf("%d", n))
+		if n < 1 {
+			c.Bad(rule, "writeMeta:return-nil", c.P.Pos(fn.Pos()), "a success return", fmt.Sprintf("%d", n))
 		}
 	}
 	// readMeta is writeMeta's sibling: same file name under the snapshot's
